@@ -39,7 +39,7 @@ class C18(Prop):
         else:
             sess = community_session(rng, ver)
             agent["communities"] = [sess["community"]]
-        T = rng.choice([50_000_000, 200_000_000, 1_000_000_000, 1_500_000_000, 2_500_000_000, 10_000_000_000, 50_000_000, 1_000_000_000, 5_000_000, 123_456_789, 999_999_500, 3_600_000_000_000, 7_200_000_000_000, 86_400_000_000_000])
+        T = rng.choice([50_000_000, 200_000_000, 1_000_000_000, 1_500_000_000, 2_500_000_000, 10_000_000_000, 50_000_000, 1_000_000_000, 5_000_000, 123_456_789, 999_999_500, 3_600_000_000_000, 7_200_000_000_000, 86_400_000_000_000, 500, 999, 1_000, 1_500, 900_000])
         sess["timeout_ns"] = T
         if family == "two-sessions":
             # two sessions of one process with different timeouts, each seeing stray datagrams
@@ -72,6 +72,9 @@ class C18(Prop):
             else:
                 ops.append({"id": opid, "s": 0, "op": "get", "oid": rng.choice(oids)})
             k = rng.choice([0, 0, 1, 2, 3, 5, 8, 12])
+            tiny = T < 20 * MARGIN_NS  # sub-millisecond timeouts: no room for arrivals "well before the deadline"
+            if tiny:
+                k = 0
             items = []
             t = 0
             flood = 0
@@ -95,9 +98,9 @@ class C18(Prop):
                 t += rng.randrange(T // 20, T // 4) | 1
                 if t < T - MARGIN_NS:
                     items.append(rng.choice([{"k": "raw", "hex": "30" + "ff" * rng.randint(1, 6), "delay_ns": t}, {"k": "genuine", "outer": [{"op": "truncate", "n": rng.randrange(1, 30)}], "delay_ns": t}]))
-            if rng.random() < 0.15:
+            if rng.random() < 0.15 and not tiny:
                 # a stray in the last millisecond before the deadline
-                items.append({"k": "genuine", "rewrite": {"request-id": "xor1"}, "delay_ns": (T - rng.choice([800_000, 500_000, 300_000, 100_000, 20_000])) | 1})
+                items.append({"k": "genuine", "rewrite": {"request-id": "xor1"}, "delay_ns": (T - rng.choice([800_000, 500_000, 300_000, 100_000, 20_000, 1_500, 900, 500, 100, 2])) | 1})
             if k and rng.random() < 0.3:
                 # strays just after the deadline (inside a jiffy-rounded re-armed wait)
                 for _ in range(rng.randint(1, 2)):
@@ -105,6 +108,8 @@ class C18(Prop):
             fate = rng.choice(["before", "before", "after", "never", "never"])
             if flood:
                 fate = "before"
+            if tiny and fate == "before":
+                fate = "never"
             if fate == "before":
                 # anywhere before the overall deadline, also after some strays
                 lo = 1001 if not flood else 1001 + flood * gap + 1
